@@ -63,6 +63,7 @@ type ISnap struct {
 	WDeliv   int    `json:"wd"`   // events delivered to it
 	Pend     int    `json:"pend"` // pending gated ops of the instance
 	OwnRev   uint64 `json:"ownrev,omitempty"` // revision of the instance's latest acknowledged successful write
+	WOpen    int    `json:"wopen,omitempty"`  // watchers of the instance that were handed out and never stopped
 }
 
 type Term struct {
